@@ -11,6 +11,8 @@
 import copy
 import random
 
+import dataclasses
+
 import numpy as np
 import tskit
 
@@ -90,6 +92,26 @@ def add_duplicate_sites(t, rng):
     return t
 
 
+def row_tuple(r):
+    out = []
+    for f in dataclasses.fields(r):
+        v = getattr(r, f.name)
+        if f.name == "id":
+            continue
+        if isinstance(v, np.ndarray):
+            v = tuple(v.tolist())
+        elif isinstance(v, float) and v != v:
+            v = "nan"
+        elif isinstance(v, (dict, list)):
+            v = repr(v)
+        out.append(v)
+    return tuple(map(repr, out))
+
+
+def key_tuple(r):
+    return tuple(repr(getattr(r, f.name)) for f in dataclasses.fields(r) if f.name not in ("metadata", "id"))
+
+
 def drive(a, rng):
     try:
         return drive_(a, rng)
@@ -119,6 +141,23 @@ def drive_(a, rng):
     s3.sort(edge_start=es, site_start=ss, mutation_start=ms)
     case.update(shuffled=abstr.abstract_of(s, cmap, tmap), sorted=abstr.abstract_of(s2, cmap, tmap), edge_start=es,
                 site_start=ss, mutation_start=ms, idem=1 if s3.equals(s2) else 0)
+    # --- the same shuffle with ragged metadata: a random subset of the rows of every table loses its metadata (rows stay distinct through
+    # their other columns or are interchangeable); sort must still only permute whole rows, and order them exactly as it ordered the tagged rows
+    rg = s.copy()
+    for name in ("edges", "migrations", "sites", "mutations", "individuals", "populations", "nodes"):
+        tab = getattr(rg, name)
+        md = [bytes(r.metadata) if rng.random() < 0.5 else b"" for r in tab]
+        tab.packset_metadata(md)
+    before = {name: sorted(row_tuple(r) for r in getattr(rg, name)) for name in ("edges", "migrations", "sites", "mutations")}
+    rg.sort(edge_start=es, site_start=ss, mutation_start=ms)
+    after = {name: sorted(row_tuple(r) for r in getattr(rg, name)) for name in ("edges", "migrations", "sites", "mutations")}
+    same_rows = all(before[k] == after[k] for k in before if k != "mutations")
+    # mutation rows change their site / parent ids under sort: compare the id-free part
+    same_rows = same_rows and sorted((m[1], m[2], m[4], m[5]) for m in before["mutations"]) == sorted((m[1], m[2], m[4], m[5]) for m in after["mutations"])
+    # and the order is the one sort gave to the fully tagged rows (same keys, same tie handling): compare key columns row by row
+    same_order = [key_tuple(r) for r in rg.migrations] == [key_tuple(r) for r in s2.migrations] and \
+        [key_tuple(r) for r in rg.edges] == [key_tuple(r) for r in s2.edges]
+    case["ragged_ok"] = 1 if (same_rows and same_order) else 0
     # --- repair pipeline on an order-preserving shuffle of the same collection (+ duplicate sites)
     base = t.copy()
     s = shuffle(add_duplicate_sites(t.copy(), rng), rng, keep_site_mut_order=True)
